@@ -29,6 +29,7 @@ def run(ctx):
     check_tags(ctx, prog)
     check_sink(ctx, prog)
     check_exact_reals(ctx, prog)
+    ctx.floor('C05.realtext', check_real_text(ctx, prog), 2)
     # the decoder side of the number round trip: integer / double conversion sites of the parser are range-guarded
     C06.check_numbers(ctx, prog)
     # ... and of the documents the encoders write: numbers in every form directly followed by a separator, XDL items separated by
@@ -43,6 +44,60 @@ def run(ctx):
     except automaton.Stuck as ex:
         ctx.undecided('C06.docs', 'asl::XdlParser::parse', 'parse:every document of the corpus has an accepting run', '/repo/src/Xdl.cpp:0', 'the decoder loop uses a construct the abstract interpreter cannot represent: %s' % ex)
     return __doc__.split('\n\n', 1)[1]
+
+
+APPENDERS = ('operator<<', 'operator+=', 'append', 'insert', 'concat', 'operator=')
+
+
+def check_real_text(ctx, prog):
+    """C05.realtext: the text of a finite real is the one printf produced with the 17 / 9 significant digits format - the only byte
+    the encoder may change afterwards is a decimal comma.  `%.17g` yields "3", "0.5", "1e+22", "1.5e-07": any text appended
+    behind it on the strength of one of these shapes (".0" because there is no '.') corrupts the others ("1e+22.0" is not a
+    number; the whole document is rejected).  In new_number(double) and new_number(float), after the snprintf into the output
+    no call appends to the output string - neither there nor in a helper of the unit that is handed the string."""
+    n = 0
+    for f in prog.fn('asl::XdlEncoder::new_number'):
+        if not f.get('body') or not f['params'] or not T(f, f['params'][0]['t']).get('flt'):
+            continue
+        cfg = cfgm.CFG(f)
+        bad = []
+
+        def appends_to(g, pid, depth=0):
+            for w in fn_exprs(g):
+                if w.get('k') == 'call' and w.get('clsp') == 'asl::String' and (w.get('pq') or '').split('::')[-1] in APPENDERS and w.get('obj') is not None and \
+                        strip_lv(w['obj']).get('k') == 'var' and strip_lv(w['obj']).get('id') == pid:
+                    return w
+            return None
+
+        def step(nd, st):
+            if nd.kind != 'ev' or nd.e is None or nd.e.get('k') != 'call':
+                return st
+            e = nd.e
+            nm = (e.get('pq') or e.get('fn') or '').lstrip(':')
+            if nm.split('::')[-1] in ('snprintf', 'sprintf', '_snprintf', 'sprintf_s'):
+                return True
+            if not st:
+                return st
+            if e.get('clsp') == 'asl::String' and nm.split('::')[-1] in APPENDERS and e.get('obj') is not None and strip_lv(e['obj']).get('f') == '_out':
+                bad.append((e.get('l'), pe(e)))
+            elif not e.get('clsp') or e.get('clsp') == 'asl::XdlEncoder':
+                for k_, a_ in enumerate(e.get('a') or []):
+                    if strip_lv(a_).get('f') == '_out':
+                        for h in prog.fn(e.get('fn'), e.get('sig')):
+                            if h.get('body') and k_ < len(h['params']):
+                                w = appends_to(h, h['params'][k_]['id'])
+                                if w is not None:
+                                    bad.append((e.get('l'), '%s -> %s' % (pe(e)[:40], pe(w))))
+            return st
+        reached, _ = cfgm.dataflow(cfg, False, step)
+        if not any(True in v for v in reached.values()):
+            continue
+        n += 1
+        ctx.analysed(f)
+        role = 'new_number%s:the printed text is left as printf wrote it' % (f.get('sig') or '')
+        ctx.check(not bad, 'C05.realtext', f['pq'], role, fwhere(f, bad[0][0] if bad else None), 'no append to the output after the snprintf (a decimal comma is replaced in place)',
+                  'new_number%s appends to the number text after printf wrote it (`%s`): "%%.17g" also yields exponent forms without a point ("1e+22"), and text appended behind those ("1e+22.0") is not a number - Json::decode / Xdl::decode reject the whole document' % (f.get('sig') or '', bad[0][1] if bad else ''))
+    return n
 
 
 def check_exact_reals(ctx, prog):
